@@ -333,7 +333,12 @@ func Edit(t *rapid.T, s *Schema, o Opts, protect map[string]bool) string {
 		}
 		c := &tb.Cols[pick(t, "modcol", ed)]
 		old := c.Default
-		if old != "" && rapid.Bool().Draw(t, "dropdef") {
+		if strings.HasPrefix(old, "'") && strings.ToUpper(old) != strings.ToLower(old) && rapid.IntRange(0, 2).Draw(t, "casedef") == 0 {
+			// the same text in another letter case is another default
+			if c.Default = strings.ToUpper(old); c.Default == old {
+				c.Default = strings.ToLower(old)
+			}
+		} else if old != "" && rapid.Bool().Draw(t, "dropdef") {
 			c.Default = ""
 		} else {
 			for i := 0; i < 3 && c.Default == old; i++ {
